@@ -21,7 +21,7 @@ Cases ==
   \cup {<< "dg2", t >> : t \in Tpls}
   \cup {<< "repeated", k, n, lf >> : k \in {"DG7", "DG16"}, n \in 1..MaxRep, lf \in 0..2}
   \cup {<< "secinfos", k, cn, ids, ord >> : k \in {"DG14", "CardAccess", "CardSecurity"}, cn \in Counts, ids \in BOOLEAN, ord \in {"table", "permuted"}}
-  \cup {<< "sod", v, nh >> : v \in 0..1, nh \in 1..MaxRep}
+  \cup {<< "sod", v, nh, ord >> : v \in 0..1, nh \in 1..MaxRep, ord \in {"ascending", "other"}}
   \cup {<< "wrongdg", k, n >> : k \in Kinds, n \in 1..16}
   \cup {<< "summary", d11, t, n7, com, vi >> : d11 \in Dg11Shapes, t \in SmallTpls, n7 \in 0..2, com \in BOOLEAN, vi \in BOOLEAN}
 
@@ -30,7 +30,7 @@ Expected(x) ==
     [] x[1] = "dg2"      -> ViewDG2(x[2])
     [] x[1] = "repeated" -> ViewRepeated(x[3])
     [] x[1] = "secinfos" -> ViewSecInfos(x[3])
-    [] x[1] = "sod"      -> ViewSOD(x[2], x[3])
+    [] x[1] = "sod"      -> ViewSOD(x[2], x[3], x[4])
     [] x[1] = "wrongdg"  -> AcceptedAs(x[2], x[3])
     [] x[1] = "summary"  -> SummaryOf(x[2], x[3], x[4], x[5], x[6])
 
